@@ -206,4 +206,6 @@ def run(ctx, rep):
     r02c(ctx, rep)
     r02d(ctx, rep)
     r02e(ctx, rep)
+    from . import prelude
+    prelude.r01g(ctx, rep, rule="R02f")
     rep.not_decided += ["a wrong slot number or capture distance", "values denoted by references in concrete programs"]
